@@ -194,8 +194,14 @@ def run_sweep(chk):
     chk.count("adv:calls", len(calls))
     chk.coverage["adv_unsupported_signatures"] = len(unsupported)
     chk.coverage["adv_unsupported_sample"] = unsupported[:12]
+    _execute(chk, calls, "adv", LIMITS)
+
+
+def _execute(chk, calls, prefix, limits):
+    """run the calls [(key part, expression)] one request at a time in watched, memory-capped children; report silence
+    (confirmed alone under the long deadline) and dead children as `<prefix>:<key part>:hang|abort`"""
     slow = L.slowdown()
-    reqs = [{"op": "run", "src": f"let a = {e};", "get": ["a"], "limits": LIMITS} for _, e in calls]
+    reqs = [{"op": "run", "src": f"let a = {e};", "get": ["a"], "limits": limits} for _, e in calls]
     res = run_capped(reqs, ANSWER * slow, jobs=8)
     again = [i for i, r in enumerate(res) if "hang" in r or "abort" in r]
     # a silent call is confirmed alone under the long deadline; only the first CONFIRM suspects are (a change that makes
@@ -207,7 +213,7 @@ def run_sweep(chk):
             res[i] = r
         for i in again[CONFIRM:]:
             res[i] = {"unconfirmed": True}
-            chk.count("adv:silent-not-confirmed")
+            chk.count(f"{prefix}:silent-not-confirmed")
     for (fn, e), r in zip(calls, res):
         chk.evaluations += 1
         if "unconfirmed" in r:
@@ -216,13 +222,120 @@ def run_sweep(chk):
         kind = ("hang" if f == "HANG" else "abort" if f and f.startswith("panic abort") else "panic" if f and f.startswith("panic")
                 else "compile" if f and f.startswith("COMPILE") else "violation" if f and f.startswith("viol") else
                 "error" if (f is None and str(r["vals"].get("a", "")).startswith("(error")) else "value")
-        chk.count("adv:" + kind)
+        chk.count(f"{prefix}:" + kind)
         chk.nontrivial.add(e)
         if kind in ("hang", "abort"):
-            chk.violation(f"adv:{fn}:{kind}",
-                          f"`let a = {e};` under {LIMITS}: " + ("no answer within %.0f s" % (WATCHDOG * slow) if kind == "hang" else f"the interpreter process died ({f[:160]})"),
-                          {"op": "run", "src": f"let a = {e};", "get": ["a"], "limits": LIMITS, "got": f, "expect_answer": True})
-        elif kind == "panic":
-            chk.coverage.setdefault("adv_panics", [])
-            if len(chk.coverage["adv_panics"]) < 20:
-                chk.coverage["adv_panics"].append(f"{e} => {f[:120]}")
+            chk.violation(f"{prefix}:{fn}:{kind}",
+                          f"`let a = {e};` under {limits}: " + ("no answer within %.0f s" % (WATCHDOG * min(slow, 3.0)) if kind == "hang" else f"the interpreter process died ({f[:160]})"),
+                          {"op": "run", "src": f"let a = {e};", "get": ["a"], "limits": limits, "got": f, "expect_answer": True})
+        elif kind in ("panic", "compile"):
+            chk.coverage.setdefault(f"{prefix}_{kind}s", [])
+            if len(chk.coverage[f"{prefix}_{kind}s"]) < 20:
+                chk.coverage[f"{prefix}_{kind}s"].append(f"{e} => {f[:140]}")
+
+
+# ------------------------------------------------------------------------------------------ native-loop proportionality
+LOOP_LIMITS = {"search": 1000, "ud_calls": 10000, "size": 20_000_000, "time_ms": 300, "depth": 1000, "recursion": 20000}
+HUGE_SEQS = [("range", "range(0, 10**15)"), ("range.reverse", "range(10**15).reverse()"), ("count.take", "count().take(10**15)"),
+             ("range.map", "range(10**15).map(neg{int})")]
+INDEXES = [0, 1, -1, -2, 10**14, -(10**14)]
+PREFERRED = {(1, 'bool'): ["is_error"], (2, 'bool'): ["eq", "lt", "ne"], (1, 'int'): ["neg", "hash"], (2, 'int'): ["add", "cmp"]}
+
+
+def builtin_callbacks(sigs):
+    """builtin function values by type (arity, result): turbofish-selected natives over ints — no user call happens when
+    they are used as callbacks, so only the search limit can stop a native loop over them"""
+    from . import c16_lazy
+    found = {}
+    for name in sorted(sigs):
+        for s in sigs[name]:
+            if s.startswith("dyn:"):
+                continue
+            try:
+                gs, ps, ret = L.parse_sig(s)
+            except ValueError:
+                continue
+            if any(not r for _, r in ps):
+                continue
+            pst = [c16_lazy.subst(t) for t, _ in ps]
+            rt = c16_lazy.subst(ret)
+            if pst and all(t == 'int' for t in pst) and rt in ('int', 'bool') and len(pst) <= 2:
+                found.setdefault((len(pst), rt), []).append(name)
+    found.setdefault((1, 'bool'), []).append("is_error")
+    out = {}
+    for k, names in found.items():
+        pref = [n for n in PREFERRED.get(k, []) if n in names] or sorted(set(names))[:2]
+        out[k] = [f"{n}{{{', '.join(['int'] * k[0])}}}" for n in pref[:2]]
+    return out
+
+
+def loop_calls(sigs):
+    from . import c16_lazy
+    cbs = builtin_callbacks(sigs)
+    calls, skipped = [], []
+    for name in sorted(sigs):
+        for s in sigs[name]:
+            if s.startswith("dyn:"):
+                continue
+            try:
+                gs, ps, ret = L.parse_sig(s)
+            except ValueError:
+                continue
+            ps = [(c16_lazy.subst(t), r) for t, r in ps if r]
+            cpos = [i for i, (t, _) in enumerate(ps) if isinstance(t, tuple) and t[0] == 'N' and t[1] in ('Sequence', 'Generator') and t[2] == ['int']]
+            fpos = [i for i, (t, _) in enumerate(ps) if isinstance(t, tuple) and t[0] == 'F']
+            if not cpos or not fpos:
+                continue
+            # callback choices per function-typed parameter
+            choices = []
+            ok = True
+            for i in fpos:
+                t = ps[i][0]
+                key = (len(t[1]), t[2]) if all(p == 'int' for p in t[1]) and t[2] in ('int', 'bool') else None
+                if key is None or key not in cbs:
+                    ok = False
+                    break
+                choices.append(cbs[key])
+            if not ok:
+                skipped.append(f"{name} {s}")
+                continue
+            ipos = [i for i, (t, _) in enumerate(ps) if t == 'int']
+            for sname, src in HUGE_SEQS:
+                for combo in itertools.product(*choices):
+                    for idx in (INDEXES if ipos else [None]):
+                        args = []
+                        try:
+                            for i, (t, _) in enumerate(ps):
+                                if i == cpos[0]:
+                                    args.append(src + (".to_generator()" if t[1] == 'Generator' else ""))
+                                elif i in fpos:
+                                    args.append(combo[fpos.index(i)])
+                                elif t == 'int':
+                                    args.append(lit(idx) if i == ipos[0] else "3")
+                                else:
+                                    args.append(small(t))
+                        except Unsupported:
+                            skipped.append(f"{name} {s}")
+                            break
+                        shape = sname + ("" if idx is None else ":idx" + ("-huge" if idx < -2 else "+huge" if idx > 2 else str(idx)))
+                        calls.append((f"{name}:{shape}", f"{name}(" + ", ".join(args) + ")"))
+    return calls, sorted(set(skipped))
+
+
+def run_loop_sweep(chk):
+    """every library function with a sequence/generator and a function-typed parameter over a HUGE finite lazy source with a
+    BUILTIN callback (no user call: only the search limit can stop a native loop) and every index/direction argument: it
+    must answer — a searching builtin by MaximumSearch, an eager one by AllocationLimitReached, a lazy one with its value"""
+    import itertools as _it
+    globals().setdefault("itertools", _it)
+    sigs = L.library_signatures()
+    calls, skipped = loop_calls(sigs)
+    seen, uniq = set(), []
+    for c in calls:
+        if c[1] not in seen:
+            seen.add(c[1])
+            uniq.append(c)
+    chk.count("loop:functions", len({c[0].split(":")[0] for c in uniq}))
+    chk.count("loop:calls", len(uniq))
+    chk.coverage["loop_skipped_signatures"] = skipped
+    _execute(chk, uniq, "loop", LOOP_LIMITS)
